@@ -45,6 +45,10 @@ def forms_len(n):
     return out
 
 
+def has_ws(s):
+    return isinstance(s, str) and any(ch.isspace() for ch in s)
+
+
 class Monitor(object):
     def __init__(self, ctx):
         self.ctx = ctx
@@ -66,6 +70,24 @@ class Monitor(object):
         self.on_points = None          # optional tap for C05
 
     # ---------------------------------------------------------------- helpers
+    def decorations(self, ev):
+        """other spellings of a table key that the library's own normaliser maps onto it: blanks and a final newline around
+        and inside the code, other letter case"""
+        N = attach.original(self.u.normalize_event_code)
+        try:
+            base = N(ev)
+        except Exception:
+            return []
+        out = []
+        for sp in (' ' + ev, ev + ' ', '\t' + ev, ev + '\n', ' ' + ev.lower() + ' ', re.sub(r'(\d)([A-Za-z])', r'\1 \2', ev, 1),
+                   ev.lower(), ev.capitalize()):
+            try:
+                if sp != ev and sp not in out and N(sp) == base:
+                    out.append(sp)
+            except Exception:
+                pass
+        return out
+
     @staticmethod
     def grid_value(perf, allow_hms=True):
         """exact Fraction of a mark given in a documented form, or None"""
@@ -128,6 +150,9 @@ class Monitor(object):
         if want is None:
             ctx.count('unspecified.tyrving-age-not-tabulated')
             return
+        if not out.ok and has_ws(ev):
+            ctx.count('unspecified.blank-decorated-code-refused')
+            return
         if not out.ok:
             ctx.violation('tyrving:raise:%s:%s' % (type(out.value).__name__, kind), case, want, repr(out))
             return
@@ -165,6 +190,9 @@ class Monitor(object):
         case = {'sys': 'qkids', 'ct': ct, 'ev': ev, 'perf': perf, 'ptype': type(perf).__name__}
         if self.on_points:
             self.on_points('qkids', (ctn, evn), v, out, timed, case)
+        if not out.ok and has_ws(ev):
+            ctx.count('unspecified.blank-decorated-code-refused')
+            return
         if not out.ok:
             ctx.violation('qkids:raise:%s' % type(out.value).__name__, case, want, repr(out))
             return
@@ -193,10 +221,11 @@ class Monitor(object):
         if len(args) < 2:
             return
         code, perf = args[:2]
-        if not isinstance(code, str) or code.upper() not in self.SH.events:
+        if not isinstance(code, str) or code.strip().upper() not in self.SH.events:
             ctx.count('unjudged.sportshall-no-table')
             return
-        code = code.upper()
+        spelled = code
+        code = code.strip().upper()
         e = self.SH.events[code]
         if isinstance(perf, str) and re.match(r'^\d+(\.\d+)?$', perf):
             x = D(perf)
@@ -215,6 +244,11 @@ class Monitor(object):
         case = {'sys': 'sportshall', 'ev': code, 'perf': perf, 'ptype': type(perf).__name__}
         if self.on_points:
             self.on_points('sportshall', (code,), F(x), out, not e['high'], case)
+        if has_ws(spelled):
+            case['ev'] = spelled
+            if not out.ok or out.value is None:
+                ctx.count('unspecified.blank-decorated-code-refused')
+                return
         if not out.ok:
             ctx.violation('sportshall:raise:%s' % type(out.value).__name__, case, want, repr(out))
             return
@@ -412,6 +446,12 @@ def run_tyrving(mon, ctx, job, rnd):
                 attach.call(f, g, age, ev, '%d:%02d.%d' % (m, r // 100, (r % 100) // 10))
     # spellings of the key
     attach.call(f, g.lower(), str(age), ev.lower() if mon.u.check_event_code(ev.lower()) else ev, bn / 100)
+    some = sorted(marks)[:: max(1, len(marks) // 12)]
+    for sp in mon.decorations(ev):
+        for n in some:
+            for name, p in (forms_time(n) if kind == 'race' else forms_len(n))[:2]:
+                attach.call(f, g, age, sp, p)
+                ctx.count('eval.decorated-spelling')
 
 
 def qkids_jobs(mon):
@@ -436,6 +476,12 @@ def run_qkids(mon, ctx, job, rnd):
     for n in marks:
         for name, p in (forms_time(n) if timed else forms_len(n)):
             attach.call(f, ct, ev, p)
+    some = list(marks)[:: max(1, len(marks) // 25)]
+    for sp in mon.decorations(ev):
+        for n in some:
+            for name, p in (forms_time(n) if timed else forms_len(n))[:2]:
+                attach.call(f, ct, sp, p)
+                ctx.count('eval.decorated-spelling')
     for nm in names:
         attach.call(f, nm.title(), ev, p10)
         attach.call(f, ' '.join(nm.lower()), ev.lower() if mon.u.check_event_code(ev.lower()) else ev, p100)
@@ -454,6 +500,7 @@ def run_sportshall(mon, ctx, job, rnd):
     lo = max(D(0), min(vals) - 60 * step)
     hi = max(vals) + (max(vals) if ctx.tier == 'thorough' else min(max(vals), 400 * step))
     x = lo
+    k = 0
     while x <= hi:
         s = str(x)
         attach.call(f, code, s)
@@ -465,6 +512,11 @@ def run_sportshall(mon, ctx, job, rnd):
                 attach.call(f, code, int(x))
                 attach.call(f, code, str(int(x)))
             attach.call(f, code.lower(), '%.1f' % x if (x * 10) % 1 == 0 else s)
+        k += 1
+        if k % 9 == 0:
+            for sp in (' ' + code, code + ' ', code.lower() + '\n'):
+                attach.call(f, sp, s)
+                ctx.count('eval.decorated-spelling')
         x += step
 
 
